@@ -129,18 +129,6 @@ pub proof fn lemma_rewind(l: Seq<FormatEntry>, n: int, st: Seq<Handle>)
 pub fn implied(p: ExpandedName) -> (r: bool)
     ensures r == (p != (ExpandedName { ns: ns!(html), local: local_name!("p") }) && ts_cursory_implied_end(p)),
 { unimplemented!() }
-impl TreeBuilder {
-    /// insert_element (ASSUMED frame): creates an element for (ns, name, attrs), inserts it at the appropriate place and,
-    /// with PushFlag::Push, pushes it onto the stack of open elements; the new handle is not on the stack before
-    #[verifier::external_body]
-    pub fn insert_element(&mut self, push: PushFlag, ns: Namespace, name: LocalName, attrs: Vec<Attribute>, had_duplicate_attributes: bool) -> (r: Handle)
-        ensures
-            final(self).same_but_stack(old(self)),
-            final(self).stack() == (if push is Push { old(self).stack().push(r) } else { old(self).stack() }),
-            elem_name_of(r) == (ExpandedName { ns: ns, local: name }),
-            forall|i: int| 0 <= i < old(self).stack().len() ==> #[trigger] old(self).stack()[i] != r,
-    { unimplemented!() }
-}
 
 // ---- function arguments (tag sets, predicates) as the verifier sees them ----
 // Verus knows of a function argument f: f.requires(args) (it can be called) and f.ensures(args, r) ==> <its postcondition>.
@@ -318,4 +306,34 @@ pub open spec fn w_place(tb: &TreeBuilder, override_target: Option<Handle>) -> I
     // 3. if the adjusted insertion location is inside a template element, let it instead be inside its template contents
     else if html_named(target, local_name!("template")) { InsertionPoint::LastChild(template_contents_of(target)) }
     else { InsertionPoint::LastChild(target) }
+}
+
+// ---- "insert a foreign element" / "insert an HTML element" (13.2.6.1): create, associate with the form owner, insert ----
+pub open spec fn is_form_associatable(p: ExpandedName) -> bool {
+    p.ns == ns!(html) && (p.local == local_name!("button") || p.local == local_name!("fieldset") || p.local == local_name!("input") || p.local == local_name!("object")
+        || p.local == local_name!("output") || p.local == local_name!("select") || p.local == local_name!("textarea") || p.local == local_name!("img"))
+}
+pub open spec fn is_form_attr() -> spec_fn(Attribute) -> bool { |a: Attribute| a.name.ns == ns!() && a.name.local == local_name!("form") }
+pub open spec fn has_form_attr(attrs: Seq<Attribute>) -> bool { seq_any(attrs, is_form_attr()) }
+/// "if the element is a form-associated element, the form element pointer is not null, there is no template element on the
+/// stack of open elements, the element is either not listed or doesn't have a form attribute": associate it with the form
+pub open spec fn w_form_assoc(tb: &TreeBuilder, ns: Namespace, name: LocalName, attrs: Seq<Attribute>) -> bool {
+    let p = ExpandedName { ns: ns, local: name };
+    is_form_associatable(p) && tb.form_elem.v is Some && !seq_any(tb.stack(), is_html_named(local_name!("template")))
+        && !((is_form_associatable(p) && p.local != local_name!("img")) && has_form_attr(attrs))
+}
+/// the DOM operations of insert_element: create, (associate), insert at the appropriate place
+pub open spec fn w_insert_dom(tb: &TreeBuilder, r: Handle, ns: Namespace, name: LocalName, attrs: Seq<Attribute>, dup: bool) -> Seq<DomOp> {
+    let ip = w_place(tb, None);
+    let d1 = tb.sink.dom@.push(DomOp::Create(r, ExpandedName { ns: ns, local: name }, attrs, dup));
+    let d2 = if w_form_assoc(tb, ns, name, attrs) {
+        d1.push(DomOp::AssociateWithForm(r, tb.form_elem.v.unwrap(), insertion_node1(ip), insertion_node2(ip)))
+    } else { d1 };
+    d2.push(place_op(ip, NodeOrText::AppendNode(r)))
+}
+pub open spec fn insertion_node1(ip: InsertionPoint) -> Handle {
+    match ip { InsertionPoint::LastChild(p) => p, InsertionPoint::BeforeSibling(p) => p, InsertionPoint::TableFosterParenting { element, prev_element } => element }
+}
+pub open spec fn insertion_node2(ip: InsertionPoint) -> Option<Handle> {
+    match ip { InsertionPoint::TableFosterParenting { element, prev_element } => Some(prev_element), _ => None }
 }
